@@ -187,6 +187,29 @@ def fixed_programs():
                     ["NewRecord", ["b", "0", "0"], "Entity", ["S", "ex:e"], [[["S", "ex:k2"], ["int", "2"]]]],
                     ["NewRecord", ["d", "0"], "Agent", ["Q", "", D1, "ag"], []], ["NewRecord", ["d", "0"], "Agent", ["Q", "", D1, "ag"], [[["S", "ex:k"], ["int", "1"]]]],
                     walker, walker])
+    # records holding several values under one formal attribute (a membership listing several entities, built with the
+    # collection given as a QualifiedName): each deriving operation, then attributes in a namespace nobody has declared
+    # yet on every record of the result, then on every record of the source
+    PROVU = "http://www.w3.org/ns/prov#"
+    for name, mk in derivs:
+        if name in ("DocFromRecords-bundle", "AddRecord"):
+            continue
+        p = [["NewDoc"], ["AddNs", ["d", "0"], "ex", EXU],
+             ["NewRecord", ["d", "0"], "Entity", ["S", "ex:c"], []], ["NewRecord", ["d", "0"], "Entity", ["S", "ex:e1"], []],
+             ["NewRecord", ["d", "0"], "Membership", "none", [[["Q", "prov", PROVU, "collection"], ["str", "ex:c"]],
+                                                              [["Q", "prov", PROVU, "entity"], ["str", "ex:e1"]],
+                                                              [["Q", "prov", PROVU, "entity"], ["str", "ex:e2"]]]],
+             ["NewBundle", "0", ["S", "ex:b"]],
+             ["NewRecord", ["b", "0", "0"], "Membership", "none", [[["Q", "prov", PROVU, "collection"], ["str", "ex:bc"]],
+                                                                   [["Q", "prov", PROVU, "entity"], ["str", "ex:m1"]],
+                                                                   [["Q", "prov", PROVU, "entity"], ["str", "ex:m2"]]]]]
+        if name == "AddBundleDoc":
+            p = [o for o in p if o[0] != "NewBundle" and not (o[0] == "NewRecord" and o[1][0] == "b")]
+        p += mk()
+        for target_doc_ in ("1", "0"):
+            for ri in ("0", "1", "2", "3"):
+                p.append(["AddAttrs", ["r", ["d", target_doc_], ri], [[["Q", "zz" + target_doc_, "http://zz.test/" + target_doc_ + "/", "k"], ["int", "1"]]]])
+        out.append(p)
     for src_explicit in (True, False):
         for name, mk in derivs:
             for first in ("result", "source", "source-bundle"):
